@@ -224,57 +224,65 @@ def run_check(spec, tier="quick", replay=None):
         ctx["notes"].append({"anchored_headers_changed": changed, "extra_prng_streams": ctx["escalate"]})
         log("[%s] anchored headers changed (%s): deepening the quick tier x%d" % (pid, ", ".join(changed), ctx["escalate"] + 1))
 
-    # 1. regenerate tables from the source
-    if spec.extract:
-        from extract import extract as ex
-        try:
-            ctx["extract"] = ex.regenerate()
-        except Exception as e:
-            raise core.InfraError("extraction failed: %r\n%s" % (e, traceback.format_exc()))
+    # 1. regenerate tables from the source (the generated files are shared: hold the build lock from the regeneration to the end
+    #    of the build, so that a concurrent check against another tree cannot swap the tables under this one)
+    table_lock = core.LakeLock() if spec.extract else None
+    if table_lock:
+        table_lock.__enter__()
+    try:
+        if spec.extract:
+            from extract import extract as ex
+            try:
+                ctx["extract"] = ex.regenerate()
+            except Exception as e:
+                raise core.InfraError("extraction failed: %r\n%s" % (e, traceback.format_exc()))
 
-    # 2. proof obligations
-    thms = []
-    for m in spec.lean_modules:
-        thms += core.theorems_in(m)
-    drivers = sorted({s.driver for s in spec.suites() if s.driver})
-    ok, out = core.lake_build(list(spec.lean_modules) + list(spec.extra_modules))
-    build_log = out
-    if not ok:
-        proof_broken = core.failing_decls(out)
-        if not proof_broken:
-            proof_broken = [{"file": "?", "line": 0, "decl": "?", "msg": out[-1500:]}]
-        log("[%s] lake build FAILED: %s" % (pid, json.dumps(proof_broken)[:1500]))
-    if drivers:
-        okd, outd = core.lake_build(drivers)
-        if not okd:
-            ctx["driver_ok"] = False
-            proof_broken += [dict(d, driver=True) for d in core.failing_decls(outd)] or [{"file": "?", "line": 0, "decl": "driver", "msg": outd[-1500:]}]
-            log("[%s] driver build FAILED" % pid)
+        # 2. proof obligations
+        thms = []
+        for m in spec.lean_modules:
+            thms += core.theorems_in(m)
+        drivers = sorted({s.driver for s in spec.suites() if s.driver})
+        ok, out = core.lake_build(list(spec.lean_modules) + list(spec.extra_modules))
+        build_log = out
+        if not ok:
+            proof_broken = core.failing_decls(out)
+            if not proof_broken:
+                proof_broken = [{"file": "?", "line": 0, "decl": "?", "msg": out[-1500:]}]
+            log("[%s] lake build FAILED: %s" % (pid, json.dumps(proof_broken)[:1500]))
+        if drivers:
+            okd, outd = core.lake_build(drivers)
+            if not okd:
+                ctx["driver_ok"] = False
+                proof_broken += [dict(d, driver=True) for d in core.failing_decls(outd)] or [{"file": "?", "line": 0, "decl": "driver", "msg": outd[-1500:]}]
+                log("[%s] driver build FAILED" % pid)
 
-    # 3. audit
-    axioms, audit_txt = ({}, "")
-    bad_axioms = []
-    discharged = 0
-    mods_scanned, forb = core.forbidden_scan(spec.lean_modules)
-    if ok:
-        axioms, audit_txt = core.audit_axioms(pid, spec.lean_modules, thms)
-        for t in thms:
-            ax = axioms.get(t)
-            if ax is None:
-                bad_axioms.append((t, "no #print axioms output"))
-            elif not set(ax) <= core.ALLOWED_AXIOMS:
-                bad_axioms.append((t, "axioms %s" % ax))
-            else:
-                discharged += 1
-    if forb:
-        proof_broken.append({"file": "*", "line": 0, "decl": "forbidden-construct", "msg": "; ".join(forb)[:800]})
-    for t, why in bad_axioms:
-        proof_broken.append({"file": "*", "line": 0, "decl": t, "msg": why})
-    lc_bad = []
-    if ok and tier == "thorough":
-        lc_bad = core.leanchecker(spec.lean_modules)
-        for m, o in lc_bad:
-            proof_broken.append({"file": m, "line": 0, "decl": "leanchecker", "msg": o[-500:]})
+        # 3. audit
+        axioms, audit_txt = ({}, "")
+        bad_axioms = []
+        discharged = 0
+        mods_scanned, forb = core.forbidden_scan(spec.lean_modules)
+        if ok:
+            axioms, audit_txt = core.audit_axioms(pid, spec.lean_modules, thms)
+            for t in thms:
+                ax = axioms.get(t)
+                if ax is None:
+                    bad_axioms.append((t, "no #print axioms output"))
+                elif not set(ax) <= core.ALLOWED_AXIOMS:
+                    bad_axioms.append((t, "axioms %s" % ax))
+                else:
+                    discharged += 1
+        if forb:
+            proof_broken.append({"file": "*", "line": 0, "decl": "forbidden-construct", "msg": "; ".join(forb)[:800]})
+        for t, why in bad_axioms:
+            proof_broken.append({"file": "*", "line": 0, "decl": t, "msg": why})
+        lc_bad = []
+        if ok and tier == "thorough":
+            lc_bad = core.leanchecker(spec.lean_modules)
+            for m, o in lc_bad:
+                proof_broken.append({"file": m, "line": 0, "decl": "leanchecker", "msg": o[-500:]})
+    finally:
+        if table_lock:
+            table_lock.__exit__(None, None, None)
 
     ctx["proof_broken"] = proof_broken
     ctx["build_ok"] = ok
